@@ -31,9 +31,9 @@ func ruleS1x(c *Ctx) {
 		c.undecided("RemoveTriples", token.NoPos, "not found")
 		return
 	}
-	fi := c.fi(rem)
 	n := 0
-	allInstrs(rem, func(in ssa.Instruction) {
+	walkHelpers(rem, 3, func(inFn *ssa.Function, in ssa.Instruction, _ ssa.Instruction) {
+		fi := c.fi(inFn)
 		call, ok := in.(*ssa.Call)
 		if !ok || !isBuiltinCall(&call.Call, "delete") {
 			return
@@ -128,7 +128,7 @@ func ruleS1x(c *Ctx) {
 func ruleH1x(c *Ctx) {
 	c.Rule("H1x", "a varint-encoded value enters a hash whole: the bytes of a PutVarint/PutUvarint buffer that are written to the hash input are the whole buffer or a prefix whose length is derived from the call's result, never a shorter constant prefix; the buffer is freshly made (not pooled or reused without clearing)", 2)
 	n := 0
-	for _, fn := range c.hashMethods() {
+	for _, fn := range c.hashFuncs() {
 		allInstrs(fn, func(in ssa.Instruction) {
 			call, ok := in.(*ssa.Call)
 			if !ok || !(isCallTo(&call.Call, "encoding/binary", "PutVarint") || isCallTo(&call.Call, "encoding/binary", "PutUvarint")) {
@@ -173,6 +173,12 @@ func ruleH1x(c *Ctx) {
 				}
 			}
 			visit(buf, 0)
+			// a local array sliced for the encoder: every other slice of the same array is a view of the same bytes
+			if sl, ok := buf.(*ssa.Slice); ok {
+				if al, ok := sl.X.(*ssa.Alloc); ok {
+					visit(al, 0)
+				}
+			}
 			if len(probs) > 0 {
 				c.bad(key, in.Pos(), "%s", strings.Join(uniq(probs), "; "))
 			} else {
@@ -256,8 +262,41 @@ func ruleP3b(c *Ctx) {
 			continue
 		}
 		n++
+		// the sources of the flag: through phis, negation, and the results of same-package helpers
 		var leaves []ssa.Value
-		leafSources(rv[0], map[ssa.Value]bool{}, &leaves)
+		seenL := map[ssa.Value]bool{}
+		var src func(v ssa.Value, in *ssa.Function, d int)
+		src = func(v ssa.Value, in *ssa.Function, d int) {
+			if seenL[v] || d > 8 {
+				return
+			}
+			seenL[v] = true
+			switch x := v.(type) {
+			case *ssa.Phi:
+				for _, e := range x.Edges {
+					src(e, in, d+1)
+				}
+				return
+			case *ssa.UnOp:
+				if x.Op == token.NOT {
+					src(x.X, in, d+1)
+					return
+				}
+			case *ssa.Extract:
+				if call, ok := x.Tuple.(*ssa.Call); ok {
+					if callee := helperCallee(in, &call.Call); callee != nil {
+						for _, r2 := range c.returnsOf(callee) {
+							if rv2 := resultValues(r2); x.Index < len(rv2) {
+								src(rv2[x.Index], callee, d+1)
+							}
+						}
+						return
+					}
+				}
+			}
+			leaves = append(leaves, v)
+		}
+		src(rv[0], fn, 0)
 		for _, l := range leaves {
 			k, ok := l.(*ssa.Const)
 			if !ok || k.Value == nil || k.Value.Kind() != constant.Bool {
@@ -709,13 +748,13 @@ var l3bReviewed = map[string]string{}
 // and keeps every left row (or only reads).
 var p4eAllowed = map[string]string{
 	"Specificity": "reads the clause", "HasAlias": "reads the clause", "Bindings": "reads", "HasBinding": "reads", "Trace": "tracing", "V": "tracing",
-	"New":                       "triple.New builds the fully specified triple",
-	"simpleExist":               "read; its flag is confined to non-optional clauses by P4(a) (known finding for the alias case)",
-	"AppendTable":               "first clause / same bindings",
-	"simpleFetch":               "read",
-	"LeftOptionalJoin":          "the left outer join",
-	"specifyClauseWithTable":    "per-row specialisation; addSpecifiedData re-adds unmatched rows for optional clauses (P4c)",
-	"GraphPatternClauses":       "reads the statement", "GroupBy": "reads the statement", "OrderBy": "reads the statement", "HavingExpression": "reads the statement", "Limit": "reads the statement",
+	"New":                    "triple.New builds the fully specified triple",
+	"simpleExist":            "read; its flag is confined to non-optional clauses by P4(a) (known finding for the alias case)",
+	"AppendTable":            "first clause / same bindings",
+	"simpleFetch":            "read",
+	"LeftOptionalJoin":       "the left outer join",
+	"specifyClauseWithTable": "per-row specialisation; addSpecifiedData re-adds unmatched rows for optional clauses (P4c)",
+	"GraphPatternClauses":    "reads the statement", "GroupBy": "reads the statement", "OrderBy": "reads the statement", "HavingExpression": "reads the statement", "Limit": "reads the statement",
 	"Sprintf": "tracing", "String": "tracing",
 }
 
@@ -759,6 +798,9 @@ func ruleP4e(c *Ctx) {
 			}
 			n++
 			if _, ok := p4eAllowed[name]; !ok {
+				if c.isPure(cc.StaticCallee(), map[*ssa.Function]bool{}) {
+					return // a function that only reads cannot drop a row
+				}
 				bad = append(bad, fmt.Sprintf("%s at %s", name, c.pos(in.Pos())))
 			}
 		})
@@ -1124,26 +1166,17 @@ func ruleM3b(c *Ctx) {
 			continue
 		}
 		covered := map[*types.Var]bool{}
-		allInstrs(fn, func(in ssa.Instruction) {
-			st, ok := in.(*ssa.Store)
-			if !ok {
-				return
+		for _, e := range c.effectiveStores(fn, 0) {
+			if !cacheFields[e.field] {
+				continue
 			}
-			fa, ok := st.Addr.(*ssa.FieldAddr)
-			if !ok {
-				return
+			if _, isMake := e.val.(*ssa.MakeMap); !isMake {
+				continue
 			}
-			f := fieldVar(fa.X.Type(), fa.Field)
-			if !cacheFields[f] {
-				return
+			if fi.instrDominates(e.at, write) || fi.instrPostDominates(e.at, write) {
+				covered[e.field] = true
 			}
-			if _, isMake := st.Val.(*ssa.MakeMap); !isMake {
-				return
-			}
-			if fi.instrDominates(in, write) || fi.instrPostDominates(in, write) {
-				covered[f] = true
-			}
-		})
+		}
 		var missing []string
 		for f := range cacheFields {
 			if !covered[f] {
@@ -1259,13 +1292,13 @@ func ruleL6c(c *Ctx, rels ...string) {
 // ---- P8b an error that is tested is also propagated ---------------------------------------------------------------------------
 
 var p8bAllowed = map[string]string{
-	"semantic.processPredicate error of predicate.Parse": "probing: the token is first tried as a fully specified predicate; failure means it is a partially specified one and the regular-expression path takes over (which reports its own errors)",
+	"semantic.processPredicate error of predicate.Parse":                  "probing: the token is first tried as a fully specified predicate; failure means it is a partially specified one and the regular-expression path takes over (which reports its own errors)",
 	"(*planner.queryPlan).addSpecifiedData error of planner.cellToObject": "a cell that cannot become an object (e.g. a NULL from an optional clause, or an extracted id string) leaves the object unspecified; the clause is then fetched with fewer fixed components",
-	"planner.objectToCell error of (*triple.Object).Node":                  "accessor probing: the object is tried as node, predicate, literal in turn",
-	"planner.objectToCell error of (*triple.Object).Predicate":             "accessor probing",
-	"planner.objectToCell error of (*triple.Object).Literal":               "accessor probing; the final return reports the unknown kind",
-	"planner.tripleToRow error of (*triple.Object).Node":                   "accessor probing: decides which kind of cell to build; the failing case is handled (skippable error or NULL cell)",
-	"planner.tripleToRow error of (*triple.Object).Predicate":              "accessor probing as above",
+	"planner.objectToCell error of (*triple.Object).Node":                 "accessor probing: the object is tried as node, predicate, literal in turn",
+	"planner.objectToCell error of (*triple.Object).Predicate":            "accessor probing",
+	"planner.objectToCell error of (*triple.Object).Literal":              "accessor probing; the final return reports the unknown kind",
+	"planner.tripleToRow error of (*triple.Object).Node":                  "accessor probing: decides which kind of cell to build; the failing case is handled (skippable error or NULL cell)",
+	"planner.tripleToRow error of (*triple.Object).Predicate":             "accessor probing as above",
 }
 
 func ruleP8b(c *Ctx, rels ...string) {
@@ -1406,7 +1439,7 @@ func ruleX6(c *Ctx) {
 					known = true // the fact excludes eof, i.e. it tested the rune
 				}
 				// equality with a symbol passed in by the caller
-				if bo, ok := ft.Cond.(*ssa.BinOp); ok && bo.Op == token.EQL && ft.Truth && (isPeek(bo.X) || isPeek(bo.Y)) {
+				if bo, ok := ft.Cond.(*ssa.BinOp); ok && (bo.Op == token.EQL || bo.Op == token.NEQ) && (bo.Op == token.EQL) == ft.Truth && (isPeek(bo.X) || isPeek(bo.Y)) {
 					known = true
 				}
 			}
